@@ -3,6 +3,8 @@ package props
 import (
 	"context"
 	"fmt"
+	ledgercontroller "github.com/formancehq/ledger/internal/controller/ledger"
+	"strings"
 	"time"
 
 	"github.com/formancehq/ledger/verifh/ev"
@@ -101,6 +103,38 @@ func registerSeq(sc seqCheck) {
 		}
 		return r.Finish(cov, []string{pgsimAssumption})
 	})
+}
+
+// twinLeg evaluates fn on the twin ledger reached through export + import of the ledger under
+// test (lx.ImportedTwin): the same oracle, the same reference; signatures get the suffix
+// ":twin" (so that they fall under the same signature filters).
+func twinLeg(ctx context.Context, s *lx.StepInfo, rep *lx.Report, fn func(c ledgercontroller.Controller, sub *lx.Report)) {
+	if s.Last.Ledger != "" && s.Last.Ledger != "l1" {
+		return
+	}
+	tc, err := lx.ImportedTwin(ctx, s, "twin")
+	if err != nil {
+		rep.Add("read:twin:import", "%v", err)
+		return
+	}
+	if tc == nil {
+		return
+	}
+	sub := &lx.Report{}
+	fn(tc, sub)
+	for _, m := range sub.Items {
+		rep.Add(m.Sig+":twin", "imported twin: %s", m.What)
+	}
+}
+
+// withTwin adds to every configuration an empty ledger `twin` with the same features, in
+// another bucket.
+func withTwin(cfgs [][]lx.LedgerSpec) [][]lx.LedgerSpec {
+	var out [][]lx.LedgerSpec
+	for _, c := range cfgs {
+		out = append(out, append(append([]lx.LedgerSpec{}, c...), lx.LedgerSpec{Name: "twin", Bucket: "twinb", Features: c[0].Features}))
+	}
+	return out
 }
 
 func tsAlphabet() []lx.Op {
@@ -290,10 +324,15 @@ func init() {
 	registerSeq(seqCheck{
 		id: "C18", quick: 100 * time.Second, thor: 15 * time.Minute, depthQ: 3, depthT: 4,
 		alphabet: append(append(append([]lx.Op{}, coreAlphabet()[:9]...), metaAlphabet()[7:11]...), metaOnlyOps()...), restart: true,
-		sigs: []string{"acc:missing", "acc:unexpected", "acc:first-usage", "acc:insertion-date", "acc:order", "pit:acc:set", "pit:acc:unexpected", "read:", "ref:"},
+		sigs:    []string{"acc:missing", "acc:unexpected", "acc:first-usage", "acc:insertion-date", "acc:order", "pit:acc:set", "pit:acc:unexpected", "read:", "ref:"},
+		configs: withTwin([][]lx.LedgerSpec{{{Name: "l1"}}}),
 		check: func(ctx context.Context, s *lx.StepInfo, rep *lx.Report) {
 			lx.CheckCurrent(ctx, s.Ctrl, s.Ref, rep)
 			lx.CheckPIT(ctx, s.Ctrl, s.Ref, rep)
+			twinLeg(ctx, s, rep, func(c ledgercontroller.Controller, sub *lx.Report) {
+				lx.CheckCurrent(ctx, c, s.Ref, sub)
+				lx.CheckPIT(ctx, c, s.Ref, sub)
+			})
 		},
 		need: []string{"post:ok", "accmeta:ok", "post:insufficient_funds"},
 		rule: "every sequence of length<=depth over back/future-dated creates, scripts, failing creates and metadata-only account writes; after each sequence the listed account set == accounts involved in a committed transaction or given metadata, firstUsage == earliest effective timestamp (lowered by back-dating), insertionDate == date of first creation and unchanged by every later write (all accounts re-checked after every sequence), and the PIT listing shows an account iff first usage <= t",
@@ -301,12 +340,39 @@ func init() {
 	registerSeq(seqCheck{
 		id: "C17", quick: 110 * time.Second, thor: 15 * time.Minute, depthQ: 3, depthT: 4,
 		alphabet: append(metaAlphabet(), metaOnlyOps()[1]), restart: true,
-		configs: featureCombos("ACCOUNT_METADATA_HISTORY", "TRANSACTION_METADATA_HISTORY"),
+		configs: withTwin(featureCombos("ACCOUNT_METADATA_HISTORY", "TRANSACTION_METADATA_HISTORY")),
 		// acc:missing: metadata written to an account that cannot be read back at all
 		sigs: []string{"acc:missing", "tx:metadata", "acc:metadata", "pit:tx:metadata", "pit:acc:metadata", "tx:get-mismatch", "read:", "ref:"},
 		check: func(ctx context.Context, s *lx.StepInfo, rep *lx.Report) {
 			lx.CheckCurrent(ctx, s.Ctrl, s.Ref, rep)
 			lx.CheckPIT(ctx, s.Ctrl, s.Ref, rep)
+			twinLeg(ctx, s, rep, func(c ledgercontroller.Controller, sub *lx.Report) {
+				tw := &lx.Report{}
+				lx.CheckCurrent(ctx, c, s.Ref, tw)
+				lx.CheckPIT(ctx, c, s.Ref, tw)
+				// root cause known on the unchanged tree (known_findings.json): importing a
+				// DELETE_METADATA log of an ACCOUNT dates the new revision at the time of the
+				// import (store.DeleteAccountMetadata takes no date), not at the log's date.
+				// Structural precondition: the history holds a committed account-metadata
+				// deletion; observable: a point-in-time account-metadata mismatch on the twin.
+				deleted := false
+				for _, op := range s.Path {
+					if op.Kind == "delaccmeta" {
+						for _, l := range s.Ref.Logs {
+							if l.Type == "DELETE_METADATA" {
+								deleted = true
+							}
+						}
+					}
+				}
+				for _, m := range tw.Items {
+					sig := m.Sig
+					if deleted && strings.HasPrefix(sig, "pit:acc:metadata") {
+						sig += ":after-account-metadata-deletion"
+					}
+					sub.Add(sig, "%s", m.What)
+				}
+			})
 		},
 		need: []string{"txmeta:ok", "accmeta:ok", "deltxmeta:ok", "delaccmeta:ok", "script:ok"},
 		rule: "for each of the 4 combinations of ACCOUNT_/TRANSACTION_METADATA_HISTORY: every sequence of length<=depth over metadata at creation, set_tx_meta/set_account_meta in scripts, AccountMetadata parameter, save/delete on accounts and transactions, metadata-only accounts, revert with metadata; after each sequence current metadata == last-write-wins fold minus deleted keys, and a read at every recorded instant returns the revision at that instant when the corresponding feature is SYNC, the current metadata when it is DISABLED",
